@@ -298,6 +298,16 @@ def run_case(case):
             floor=mag(D.evaluate_density_hessian, dma, B(shells), pts))
     cmp(call(electrostatic_potential, B(sh2), dm2, pts2 + R @ np.array([0.05, 0.02, 0.01]), nuc2, Z),
         call(electrostatic_potential, B(shells), dm, pts + np.array([0.05, 0.02, 0.01]), nuc, Z), "electrostatic_potential", "esp")
+    # grid points exactly on the nuclei (they stay exactly on them in the moved frame: same expression), a distance threshold
+    # far below any other point-nucleus distance: each nucleus is left out at its own point in both frames, the values are
+    # finite and must agree
+    # (only nuclei that have no other nucleus closer than 0.05 bohr without coinciding with it: Z/d of a neighbour 1e-6 bohr
+    # away is conditioned like 1/d and the 1e-16 rounding of the moved coordinates would be what is measured)
+    dn = np.sqrt(((nuc[:, None, :] - nuc[None, :, :]) ** 2).sum(axis=2))
+    on = [k_ for k_ in range(len(nuc)) if not np.any((dn[k_] > 0) & (dn[k_] < 0.05))]
+    gp, gp2 = np.vstack([nuc[on], pts + np.array([0.05, 0.02, 0.01])]), np.vstack([nuc2[on], pts2 + R @ np.array([0.05, 0.02, 0.01])])
+    cmp(call(electrostatic_potential, B(sh2), dm2, gp2, nuc2, Z, threshold_dist=1e-10),
+        call(electrostatic_potential, B(shells), dm, gp, nuc, Z, threshold_dist=1e-10), "electrostatic_potential(points on nuclei, threshold_dist=1e-10)", "esp_on_nuclei")
     a, b = 0.3, 0.7
     S1 = call(ST.evaluate_stress_tensor, dm, B(shells), pts, alpha=a, beta=b)
     if not isinstance(S1, cm.Raised):
